@@ -87,6 +87,28 @@ vi_op(int argc, char **argv)
         print_dec_result(rc, ty, u);
         printf(" off=%zu", b.offset);
         free(mem);
+    } else if (strcmp(op, "vi.decseq") == 0 && argc == 5) {
+        /* decode again and again from ONE buffer (exact-size block) until an error or four values: the read mark a
+         * successful decode leaves is where the next one starts, whatever the fill mark says */
+        size_t n;
+        unsigned char *mem = parse_hex(argv[2], &n);
+        if (!mem) { printf("bad-op"); return; }
+        size_t off = parse_u64(argv[3]);
+        ByteBuffer b = { .data = mem, .size = n, .used = strcmp(argv[4], "full") == 0 ? n : 0, .offset = off };
+        if (b.used < off) b.used = off <= n ? off : n;
+        for (int round = 0; round < 4; round++) {
+            uint64_t u = 0; uint32_t u32v = 0; int32_t s32v = 0; int64_t s64v = 0;
+            int rc;
+            if (is32 && sgn) { rc = varint_decode_s32(&b, &s32v); u = (uint32_t)s32v; }
+            else if (is32) { rc = varint_decode_u32(&b, &u32v); u = u32v; }
+            else if (sgn) { rc = varint_decode_s64(&b, &s64v); u = (uint64_t)s64v; }
+            else rc = varint_decode_u64(&b, &u);
+            if (round) putchar(' ');
+            print_dec_result(rc, ty, u);
+            printf(" off=%zu", b.offset);
+            if (rc < 0) break;
+        }
+        free(mem);
     } else if (strcmp(op, "vi.decsrc") == 0 && argc == 3) {
         size_t n;
         unsigned char *mem = parse_hex(argv[2], &n);
